@@ -33,10 +33,10 @@ GRAMMAR (all numbers decimal, all byte strings lower-case hex, the empty byte st
   <S>  ::= per step "<drain>" | "<drain>t"       asynchronous WAL only: records leaving the buffer during the step,
                                                  "t" = plus a piece of the next one; missing entries = "0"
   <J>  ::= <gen> ":" <cells> ("|" <gen> ":" <cells>)*
-                                                 what the directory of table <gen> shows when a RemoveAll has unlinked
-                                                 its meta.pb.bin first and index.rio / data.rio still load (for an
-                                                 unfinished table keys the log does not bind are dropped); entries
-                                                 without "<gen>:" are accepted and ignored; default: no such states
+                                                 what the directory of the COMPLETE table <gen> shows when the RemoveAll
+                                                 of a compaction (session or recovery) has unlinked its meta.pb.bin
+                                                 first and index.rio / data.rio still load; entries without "<gen>:"
+                                                 are accepted and ignored; default: no such states
 
 ANSWERS
   fs.recover   → "ok ok=<0|1> tables=<gen;gen;…> vals=<v,v,…> wal=<num;num;…> events=<n>"
